@@ -168,7 +168,40 @@ def prop_C13(run):
                       "UNIT2 token lengths come from the character walker, never a literal", "UNIT3 who may construct spans from offsets", "PAIR diagnostic parent stack balanced"]
 
 
+def lim2_obligations(run, only=None, rule="LIM2"):
+    import rules_lim
+    res = rules_lim.lim2(run)
+    seen = set()
+    n = 0
+    for key, f, span, text, dis in res:
+        if only is not None and not only(key, f):
+            continue
+        if key in seen:
+            continue
+        seen.add(key)
+        n += 1
+        loc = "%s:%d" % (span["file"], span["line"])
+        if dis:
+            run.exception(rule, key, loc, "%s -- cannot overflow: %s" % (text.split(" without")[0][:160], dis))
+        else:
+            run.violation(rule, key, loc, text + ": in a debug build this panics, in a release build it wraps around silently")
+    return n
+
+
+def prop_C19(run):
+    import rules_lim
+    rules_lim.lim1(run)
+    rules_lim.lim1b(run)
+    n = lim2_obligations(run)
+    run.floor("LIM2", "arithmetic sites on user-sized values", n, 40)
+    for key, f, span, text in rules_lim.lim3(run):
+        run.violation("LIM3", key, "%s:%d" % (span["file"], span["line"]), text)
+    rules_lim.lim4(run)
+    run.rules_run += ["LIM1 recursion cycles guarded", "LIM1b loop-carried Expr nesting", "LIM2 magnitude-class taint over machine arithmetic", "LIM3 user-sized loop bounds", "LIM4 capped big-integer operations"]
+
+
 PROPS = {
+    "C19": prop_C19,
     "C13": prop_C13,
     "C08": prop_C08,
     "C07": prop_C07,
